@@ -76,6 +76,12 @@ func exercise(c Case) result {
 				r.stage = "ICCProfile"
 				p, _ = md.ICCProfile()
 				_, _ = md.ICCProfileData()
+				// the accessors are asked again: whatever the first call left behind (a memo, a lock, an error)
+				r.stage = "ICCProfile (second call)"
+				if p2, _ := md.ICCProfile(); p == nil {
+					p = p2
+				}
+				_, _ = md.ICCProfileData()
 			}
 		}
 		if p != nil {
@@ -83,6 +89,8 @@ func exercise(c Case) result {
 			r.stage = "Description"
 			_, _ = p.Description()
 			_ = p.Header.Version.String()
+			r.stage = "Description (second call)"
+			_, _ = p.Description()
 		}
 		r.stage = "done"
 	}()
@@ -438,7 +446,7 @@ func TestC09(t *testing.T) {
 	}
 	debug.SetGCPercent(400)
 	mut.Full = ev.Thorough()
-	ev.Rule("(a) field matrix: every length/count/offset/dimension/type field in the field map of every seed (repository images and profile, grammar-built files incl. multi-record mluc, hostile mini-files; ICC fields of embedded profiles included) x ~40 hostile values (0,1,2,7,8,9,11,12,13,127,128,255,256,65535,65536,2^24-1,2^24,2^31-1,2^31,2^32-1, field+-1, field+-12, remaining length +-1, values making offset+size wrap 2^32), singly and in rapid-chosen pairs; (b) rapid structure-aware mutation (1-4 operators: set-field, truncate, duplicate/drop/swap chunk, splice two files, flip bits, change a type tag) of generated valid files and seeds; (a4) v2 textDescription tags built field by field (ASCII count x Unicode count incl. counts whose doubling wraps 2^32 x units present x ScriptCode count); (c) every truncation of every seed <= 8 KiB (quick, seeds > 2500 bytes: structure boundaries +-2 and every fifth position); (d) amplifier inputs (maximal-ratio deflate, many tags, many mluc records, 255 JPEG chunks). Entry chain per input: Load -> ICCProfile -> Description (or ReadProfile -> Description). Oracle: no escaping panic, TotalAlloc delta <= 1 MiB + B*len(input), return within 1 s + 1 s/MiB (exceeded three times in a row; the slowest conforming call observed uses about 1-5 % of it). non-trivial = distinct mutated input whose signature is still accepted by the targeted entry point")
+	ev.Rule("(a) field matrix: every length/count/offset/dimension/type field in the field map of every seed (repository images and profile, grammar-built files incl. multi-record mluc, hostile mini-files; ICC fields of embedded profiles included) x ~40 hostile values (0,1,2,7,8,9,11,12,13,127,128,255,256,65535,65536,2^24-1,2^24,2^31-1,2^31,2^32-1, field+-1, field+-12, remaining length +-1, values making offset+size wrap 2^32), singly and in rapid-chosen pairs; (b) rapid structure-aware mutation (1-4 operators: set-field, truncate, duplicate/drop/swap chunk, splice two files, flip bits, change a type tag) of generated valid files and seeds; (a4) v2 textDescription tags built field by field (ASCII count x Unicode count incl. counts whose doubling wraps 2^32 x units present x ScriptCode count); (c) every truncation of every seed <= 8 KiB (quick, seeds > 2500 bytes: structure boundaries +-2 and every fifth position); (d) amplifier inputs (maximal-ratio deflate, many tags, many mluc records, 255 JPEG chunks). Entry chain per input: Load -> ICCProfile -> ICCProfileData -> ICCProfile again -> Description twice (or ReadProfile -> Description twice). Oracle: no escaping panic, TotalAlloc delta <= 1 MiB + B*len(input), return within 1 s + 1 s/MiB (exceeded three times in a row; the slowest conforming call observed uses about 1-5 % of it). non-trivial = distinct mutated input whose signature is still accepted by the targeted entry point")
 	ev.Set("alloc_bound", map[string]any{"A_bytes": boundA, "B_per_input_byte": boundB})
 	ev.Assume("allocation is observed as the runtime.MemStats.TotalAlloc delta around the call (process-wide; a violation is re-measured once); absence over all byte strings is not established")
 	rc := &recorder{bad: map[string]bool{}}
